@@ -540,7 +540,7 @@ func init() {
 				{Name: "mixed", Desc: fmt.Sprintf("messages and presences with %d children drawn from the payloads of all packages, every type, with and without application state (deviations = %d for the part)", k+1, rq), Body: mixedBody(k+1, rq), MaxDev: rq, CutDepth: 5, Budget: b, CrashIsolate: true, Env: oneP},
 				{Name: "malformed", Desc: fmt.Sprintf("truncations, inserted stream-level/ill-formed constructs, mismatched end tags (deviations = %d for the part)", rm), Body: malformedBody(rm), MaxDev: rm, CutDepth: 4, Budget: b, CrashIsolate: true, Env: oneP},
 				{Name: "size", Desc: fmt.Sprintf("large and deeply nested payloads (deviations = %d for the part)", rz), Body: sizeBody(scale, rz), MaxDev: rz, CutDepth: 4, Budget: b, CrashIsolate: true, Env: oneP},
-				{Name: "history-iterator", Desc: "a tracked archive query (history.Handler.Fetch): 0-2 result messages + result, the application takes 0-2 / all messages and closes the iterator, the context is cancelled at any instant; every interleaving of serve loop, application, canceller and the library's fetch goroutine up to the preemption bound", Body: historyIterBody, MaxDev: histPre, ShardLevels: 2, Budget: b, Env: oneP},
+				{Name: "history-iterator", Desc: "a tracked archive query (history.Handler.Fetch): 0-2 result messages + result, the application takes 0-2 / all messages and closes the iterator, the context is cancelled at any instant; every interleaving of serve loop, application, canceller and the library's fetch goroutine up to the preemption bound", Body: historyIterBody, MaxDev: histPre, ShardLevels: 2, Budget: 2 * b, Env: oneP},
 				drv.RacePart(8*histPre, histPre, b, historyIterBody),
 				{Name: "ibb-expect", Desc: fmt.Sprintf("sequences of 2 pool stanzas (both tiers: every execution found blocked leaves its goroutines behind) for an IBB listener whose application earlier gave up an Expect call for stream s1 of the peer (deviations = %d for the part)", rx), Body: seqBody(2, rx, "ibb", appIBBGaveUp), MaxDev: rx, CutDepth: 5, Budget: b, CrashIsolate: true, Env: oneP},
 			}...)
